@@ -26,6 +26,7 @@ def main():
     prop, wt, sid = sys.argv[1], sys.argv[2].rstrip("/"), sys.argv[3]
     tier = "quick"
     race = False
+    fast = False   # saved seeds only: skip the existing-suite and demonstration steps (validated when the seed was stored)
     checks = [prop]
     a = sys.argv[4:]
     while a:
@@ -35,6 +36,8 @@ def main():
             checks = a[1].split(","); a = a[2:]
         elif a[0] == "--race":
             race = True; a = a[1:]
+        elif a[0] == "--fast":
+            fast = True; a = a[1:]
         else:
             a = a[1:]
     res = dict(property=prop, worktree=wt, seed_id=sid, ran=[])
@@ -84,41 +87,47 @@ def main():
     rc, o = sh("go build ./... && go build -tags verif ./...", wt)
     res["build_ok"] = rc == 0
     print("build:", "ok" if rc == 0 else o[-1500:])
-    # 2. existing tests, demo moved aside
-    aside = os.path.join("/tmp", f"_demo_{sid}.go.txt")
-    shutil.move(os.path.join(wt, demo), aside)
-    rc, o = sh("flock /tmp/.dastard-repotest.lock go test -vet=off -count=1 -json ./... 2>&1", wt, timeout=2400)
-    fails = set()
-    passes = 0
-    for l in o.splitlines():
-        try:
-            j = json.loads(l)
-        except Exception:
-            continue
-        if j.get("Test") and "/" not in j["Test"]:
-            if j.get("Action") == "fail":
-                fails.add(j["Test"])
-            elif j.get("Action") == "pass":
-                passes += 1
-    shutil.move(aside, os.path.join(wt, demo))
-    res["existing_tests"] = dict(passed=passes, failed=sorted(fails))
-    unexpected = fails - IGNORED
-    print(f"existing tests with the change: {passes} pass, fail={sorted(fails)} -> {'OK' if not unexpected and passes >= 70 else 'NOT OK'}")
-    res["tests_still_pass"] = (not unexpected) and passes >= 70
-    # 3. demo with / without
-    run_demo = f"flock /tmp/.dastard-repotest.lock go test -vet=off -count=1 -run 'Seed|seed|ZZ|Zz' {demo_pkg} 2>&1 | tail -30"
-    names = re.findall(r"func (Test\w+)\(", open(os.path.join(wt, demo)).read())
-    if names:
-        run_demo = f"flock /tmp/.dastard-repotest.lock go test -vet=off -count=1 -run '^({'|'.join(names)})$' {demo_pkg} 2>&1 | tail -30"
-    if race or (saved and oldmeta.get("demo_needs_race")):
-        run_demo = run_demo.replace("go test -vet=off", "go test -race -vet=off")
-        res["demo_needs_race"] = True
-    rc_w, o_w = sh(run_demo + "; exit ${PIPESTATUS[0]}", wt)
-    sh(f"git apply -R {patch}", wt)
-    rc_wo, o_wo = sh(run_demo + "; exit ${PIPESTATUS[0]}", wt)
-    sh(f"git apply {patch}", wt)
-    res["demo"] = dict(file=demo, tests=names, fails_with_change=rc_w != 0, passes_without=rc_wo == 0)
-    print("demo with change:", "FAILS (good)" if rc_w != 0 else "passes (bad)", "| without:", "passes (good)" if rc_wo == 0 else "FAILS (bad)\n" + o_wo[-800:])
+    if fast and saved is not None:
+        ov = oldmeta.get("validation", {})
+        res["existing_tests"], res["tests_still_pass"], res["demo"] = ov.get("existing_tests"), ov.get("tests_still_pass"), ov.get("demo")
+        if ov.get("demo_needs_race"): res["demo_needs_race"] = True
+        res["fast_rerun"] = True
+    else:
+        # 2. existing tests, demo moved aside
+        aside = os.path.join("/tmp", f"_demo_{sid}.go.txt")
+        shutil.move(os.path.join(wt, demo), aside)
+        rc, o = sh("flock /tmp/.dastard-repotest.lock go test -vet=off -count=1 -json ./... 2>&1", wt, timeout=2400)
+        fails = set()
+        passes = 0
+        for l in o.splitlines():
+            try:
+                j = json.loads(l)
+            except Exception:
+                continue
+            if j.get("Test") and "/" not in j["Test"]:
+                if j.get("Action") == "fail":
+                    fails.add(j["Test"])
+                elif j.get("Action") == "pass":
+                    passes += 1
+        shutil.move(aside, os.path.join(wt, demo))
+        res["existing_tests"] = dict(passed=passes, failed=sorted(fails))
+        unexpected = fails - IGNORED
+        print(f"existing tests with the change: {passes} pass, fail={sorted(fails)} -> {'OK' if not unexpected and passes >= 70 else 'NOT OK'}")
+        res["tests_still_pass"] = (not unexpected) and passes >= 70
+        # 3. demo with / without
+        run_demo = f"flock /tmp/.dastard-repotest.lock go test -vet=off -count=1 -run 'Seed|seed|ZZ|Zz' {demo_pkg} 2>&1 | tail -30"
+        names = re.findall(r"func (Test\w+)\(", open(os.path.join(wt, demo)).read())
+        if names:
+            run_demo = f"flock /tmp/.dastard-repotest.lock go test -vet=off -count=1 -run '^({'|'.join(names)})$' {demo_pkg} 2>&1 | tail -30"
+        if race or (saved and oldmeta.get("demo_needs_race")):
+            run_demo = run_demo.replace("go test -vet=off", "go test -race -vet=off")
+            res["demo_needs_race"] = True
+        rc_w, o_w = sh(run_demo + "; exit ${PIPESTATUS[0]}", wt)
+        sh(f"git apply -R {patch}", wt)
+        rc_wo, o_wo = sh(run_demo + "; exit ${PIPESTATUS[0]}", wt)
+        sh(f"git apply {patch}", wt)
+        res["demo"] = dict(file=demo, tests=names, fails_with_change=rc_w != 0, passes_without=rc_wo == 0)
+        print("demo with change:", "FAILS (good)" if rc_w != 0 else "passes (bad)", "| without:", "passes (good)" if rc_wo == 0 else "FAILS (bad)\n" + o_wo[-800:])
     # 4. our checks
     res["checks"] = {}
     for c in checks:
